@@ -69,6 +69,26 @@ CHECKS = {
    text="Tamper evidence reduces to emit being injective on content. RX: the emission languages of the scalar kinds (bare strings, derived from the live source of needs_quotes; quoted strings; decimal ints; finite float reprs; true/false/null; list and fence openers) are shown pairwise disjoint for texts of any length by z3, so a value or value-type change always changes the text (quoting itself is injective by C04's escape/un-escape lemma). The real seal_document/verify_seal/extract_seal/_remove_seal_section then run on a rich and a minimal document for every mutation of a catalogue (value replacement incl. type-only change, rename, insert/delete/swap/move nodes at every container, envelope name, META add/change/delete, frontmatter, separator, one hash character), chosen by the solver, in memory and through emit + the real reader: NO_SEAL before sealing, VERIFIED after, re-sealing gives the same seal and text, every mutation gives INVALID; seven cosmetic respellings of the sealed text still verify.",
    note="Real SHA-256 (collision freedom assumed); mutation runs are concrete per solver choice (finite catalogue, stated); comments and trailing comments are not in the property's list of sealed content; CLI seal/--verify-seal are thin wrappers.",
    ref="DESIGN.md §4 C15"),
+ "C01": dict(
+   technique="z3 regular-language inclusion (lexical layer) + CrossHair symbolic execution of the real Parser and emitter on the canonical token layout of content models",
+   text="(a) Lexical layer, unbounded in length: the bare-string language is derived from the live source of needs_quotes (vf/nqmodel.py) and z3 shows every bare text has a structure the reader re-joins and that no token pattern fires at any segment start; decimal ints, finite float reprs, true/false/null and every quoted text re-lex as one token. (b) Structure layer: for two hand-built content models (rich: frontmatter, sentinel, envelope, nested META, separator, every value kind in every position, nested blocks with target, section markers, duplicate keys, all four comment positions; deep: 3 levels, empty block, sections) the real tokenizer lays out the canonical text, each content site in turn carries a symbolic value, and the real Parser + emitter must return the model and re-emit exactly the model's canonical text. (c) Lemmas: list layout is a function of content and both layouts read back as the same items; _strip_yaml_frontmatter inverts the emitter's frontmatter prefix; holographic re-emission: listed finding with witness.",
+   note="One symbolic site per path (|v| <= 2), product over sites under the stated independence argument; keys from a solver-indexed pool (the parser hashes keys); token substitution rests on the lexical layer; shapes beyond the two models and the CLI plumbing (same parse/emit) are outside the claim.",
+   ref="DESIGN.md §4 C01, §6"),
+ "C02": dict(
+   technique="CrossHair symbolic execution of the real Parser on the real tokenizer's token layout of hand-built content models; field-by-field oracle independent of the parser",
+   text="The expected content is the hand-built AST itself (never derived from the parser). The complete real reader must return it for the canonical text of both models; then every STRING, IDENTIFIER-value (symbolic, |v| <= 2-3) and COMMENT site (|v| <= 2) and every key site (8 keys chosen by the solver: fresh, one letter, duplicate of a sibling, parent's name, META field, constructor name) is substituted in turn in the token layout and the real Parser's result is compared field by field (envelope, sentinel, META incl. nested level, separator, keys, value kind and type, order, parentage, targets, section ids/annotations, leading/trailing/orphan/document comments) with the model holding that value.",
+   note="Same bounds and independence argument as C01; frontmatter content is compared on the concrete read-back only; octave_eject(json) as a second view is C14.",
+   ref="DESIGN.md §4 C02"),
+ "C03": dict(
+   technique="CrossHair on the real lenient Parser + emitter over token layouts with symbolic indent widths / blank lines / flags; z3 regex queries for strict profile and alias table",
+   text="From the real tokenizer's layout of each content model's canonical text, the layout freedoms become solver variables: the indentation width of each depth (any integers 0 < w1 < w2 < w3 < w4 <= 40), extra blank lines after any line, END present or absent, plain words quoted or bare, alias marks on operators; emit(parse(tokens)) must equal the canonical bytes on every path. Every single, every pair and all eleven documented text-level rewrites together go through the complete real reader and must converge. z3 shows (any length) that bare value texts contain no ASCII alias, blank or tab and quoted texts no raw tab/newline, and that each alias is matched by a pattern of the same token type as its Unicode operator. CrossHair checks the emitter's line structure (2*depth spaces, '::' unspaced, no trailing blank) on symbolic values and comments for assignment, block, section and META emission.",
+   note="Inline-space skipping is the lexer's whitespace branch (exercised concretely); triple-quoted text beyond the token flag outside the claim.",
+   ref="DESIGN.md §4 C03"),
+ "C07": dict(
+   technique="CrossHair symbolic execution of the real Parser's receipt sites and the tools' receipt mapping; solver-indexed runs of the real tokenizer",
+   text="Parser: K:: followed by 1-3 value tokens of solver-chosen kinds with symbolic positions yields exactly one multi_word_coalesce receipt iff there are >= 2 tokens, positioned at the first token and listing exactly the words; bare-line, unclosed-list and duplicate-key sites likewise. Lexer: 12 lines covering every alias of the live table, triple quotes, aliases inside quotes/comments and repeated occurrences, with solver-chosen leading newlines and indentation, go through the real tokenizer: one normalization record per alias occurrence with its text, line and column, none for Unicode spellings. Canonical layouts with a symbolic site produce no rewrite receipt. octave_validate.repairs and octave_write's two mapping functions copy each of 0-3 receipts of solver-chosen kinds exactly once with text and position.",
+   note="W_DUPLICATE_KEY treated as a diagnostic (canonical text with duplicate keys keeps it); strict write mode dropping parser receipts is a listed finding; whole documents with many sites through the tokenizer end to end are outside the claim.",
+   ref="DESIGN.md §4 C07"),
 }
 NOT_APPLICABLE = {
  "C06": "quantifies over interpreter configurations (PYTHONHASHSEED, locale, cwd, process boundaries, task interleavings); symbolic execution runs inside one configuration and cannot make these symbolic (DESIGN.md §4 C06)",
